@@ -5,6 +5,7 @@
 -/
 import ILV.Lemmas.IncrRun
 import ILV.Lemmas.IncrNoMat
+import ILV.Lemmas.IncrRecRun
 namespace ILV.Props.C18
 open ILV.C18
 
@@ -99,6 +100,37 @@ theorem C18_snapshot_current (B : List Name) (h : List Step) (hs : safe B init h
     (run h).snap = mkSnap (run h) :=
   (inv_run h hs).snap
 
+/-- **Partial theorem, self-recursive rules admitted** (transitive-closure style). As `C18_partial`,
+    but a clause body may also mention the clause's own head (`safeRec`). The evaluator is iterated with
+    a fuel bound; instead of proving the bound sufficient, `safeRec` additionally checks (decidably) that
+    every evaluation of every visited state reached its fix-point — for non-recursive rule sets that is
+    a theorem (`conv_oneLevel`), and the driver observes it on every generated history. -/
+theorem C18_partial_rec (B : List Name) (h : List Step) (q : Atom) (hs : safeRec B init h = true) :
+    SetEq (answer (snapDb (run h)) q) (answer (fresh (run h)) q) :=
+  ranswers_agree (rinv_run h hs) q
+
+theorem C18_valid_is_fresh_rec (B : List Name) (h : List Step) (hs : safeRec B init h = true)
+    (i : Inc) (n : Name) (m : Mat) (hi : (run h).inc = some i) (hm : aget i.mats n = some m)
+    (hv : m.valid = true) : SetEq m.tuples (fresh (run h) n) :=
+  rvalid_is_fresh (rinv_run h hs) i n m hi hm hv
+
+/-- transitive closure `p(X,Y) <- e(X,Y). p(X,Z) <- p(X,Y), e(Y,Z).` materialised, invalidated by an insert
+    into `e`, re-materialised, invalidated by a delete. -/
+def nE : Name := [101]
+def nP : Name := [112]
+def vY : Term := .var 89
+def vZ : Term := .var 90
+def cPE : Clause := ⟨⟨nP, [vX, vY]⟩, [⟨nE, [vX, vY]⟩]⟩
+def cPR : Clause := ⟨⟨nP, [vX, vZ]⟩, [⟨nP, [vX, vY]⟩, ⟨nE, [vY, vZ]⟩]⟩
+def qP : Atom := ⟨nP, [vX, vY]⟩
+def recHist : List Step :=
+  [.idx, .ins nE [[1, 2], [2, 3]], .reg cPE, .reg cPR, .mat nP 2, .q qP, .ins nE [[3, 4]], .q qP,
+   .mat nP 2, .del nE [[1, 2]], .q qP]
+
+example : safeRec [nE] init recHist = true := by decide
+example : answer (snapDb (run (recHist.take 5))) qP = [[1, 2], [2, 3], [1, 3]] ∧
+    (run (recHist.take 5)).snap.rules = [] := by decide
+example : answer (snapDb (run recHist)) qP = [[2, 3], [3, 4], [2, 4]] := by decide
 /-- **What the server can reach.** On the pinned tree nothing but the explicit
     `materialize_derived_relation` call ever stores a materialisation (`auto_materialize_rule` fails),
     and the protocol handler never makes that call. For EVERY history without `mat` steps and EVERY
@@ -130,5 +162,8 @@ example : (run (safeHist.take 8)).inc.map validMats = some [] := by decide
 example : answer (snapDb (run safeHist)) qB = [[2], [3]] := by decide
 /-- the refutation witness is rejected by `safe` for every choice of `B` containing `f`: `b` reads `a`. -/
 example : safe [nF] init witness = false ∧ safe [nF, nA] init witness = false := by decide
+
+/-- `safe` (the non-recursive fragment) rejects the recursive history; `safeRec` also accepts the non-recursive one. -/
+example : safe [nE] init recHist = false ∧ safeRec [nF, nG] init safeHist = true := by decide
 
 end ILV.Props.C18
